@@ -5061,6 +5061,32 @@ impl<'a, 'graph> Builder<'a, 'graph> {
           let export_name = resolution_item.nv_ref.export_name();
           match version_info.export(&export_name) {
             Some(export_value) => {
+              // the exports map comes from the registry, so its values
+              // might not form a valid url
+              let specifier = match base_url.join(export_value) {
+                Ok(specifier) => specifier,
+                Err(err) => {
+                  self.graph.module_slots.insert(
+                    resolution_item.specifier.clone(),
+                    ModuleSlot::Err(
+                      ModuleErrorKind::Load {
+                        specifier: resolution_item.specifier,
+                        maybe_referrer: resolution_item.maybe_range,
+                        err: JsrLoadError::PackageVersionManifestLoad(
+                          Box::new(nv.clone()),
+                          Arc::new(JsErrorBox::type_error(format!(
+                            "Invalid export '{}': {}",
+                            export_value, err
+                          ))),
+                        )
+                        .into(),
+                      }
+                      .into_box(),
+                    ),
+                  );
+                  continue;
+                }
+              };
               self.graph.packages.add_export(
                 nv,
                 (
@@ -5072,7 +5098,6 @@ impl<'a, 'graph> Builder<'a, 'graph> {
                 self.graph.packages.add_top_level_package(nv.clone());
               }
 
-              let specifier = base_url.join(export_value).unwrap();
               self
                 .graph
                 .redirects
